@@ -463,7 +463,8 @@ def _lint(ctx, prop):
         n1, nn1 = lint.rule_N1(ctx, files)
         d3, nd3 = lint.rule_D3(ctx, files)
         cp, ncp = lint.rule_CP1(ctx, files)
-        out += [sw, ov, n1, d3, cp]
+        nb, nnb = lint.rule_NB1(ctx, files)
+        out += [sw, ov, n1, d3, cp, nb]
     return out
 
 
